@@ -1,0 +1,106 @@
+//go:build verif
+
+// Contracts for the govc verifier (comment-only; see /verif/DESIGN.md).
+// This file contains no code. It is read as text by /verif/bin/govc.
+
+package dumbindent
+
+//@ default mode int
+
+// suffixOf(a, b): a is b[k:] for some 0 <= k <= len(b) (same backing array, same end).
+//@ spec suffixOf(a []byte, b []byte) bool = base(a) == base(b) && off(a) >= off(b) && off(a) + len(a) == off(b) + len(b) && off(a) + cap(a) == off(b) + cap(b)
+// prefixOf(a, b): a is b[:k] for some 0 <= k <= len(b).
+//@ spec prefixOf(a []byte, b []byte) bool = base(a) == base(b) && off(a) == off(b) && len(a) <= len(b)
+
+//@ func trimLeadingWhiteSpaceAndNewLines
+//@   prop C12
+//@   pure
+//@   ensures suffixOf(result, s) && implies(len(result) > 0, result[0] != ' ' && result[0] != '\t' && result[0] != '\n')
+//@   ensures forall(k, 0, len(s) - len(result), s[k] == ' ' || s[k] == '\t' || s[k] == '\n')
+//@   loop 1 invariant suffixOf(s, old(s)) && forall(k, 0, old(len(s)) - len(s), old(s[k]) == ' ' || old(s[k]) == '\t' || old(s[k]) == '\n')
+//@   loop 1 decreases len(s)
+
+//@ func trimLeadingWhiteSpace
+//@   prop C12
+//@   pure
+//@   ensures suffixOf(result, s) && implies(len(result) > 0, result[0] != ' ' && result[0] != '\t')
+//@   ensures forall(k, 0, len(s) - len(result), s[k] == ' ' || s[k] == '\t')
+//@   loop 1 invariant suffixOf(s, old(s)) && forall(k, 0, old(len(s)) - len(s), old(s[k]) == ' ' || old(s[k]) == '\t')
+//@   loop 1 decreases len(s)
+
+//@ func trimTrailingWhiteSpace
+//@   prop C12
+//@   pure
+//@   ensures prefixOf(result, s) && implies(len(result) > 0, result[len(result)-1] != ' ' && result[len(result)-1] != '\t')
+//@   ensures forall(k, len(result), len(s), s[k] == ' ' || s[k] == '\t')
+//@   loop 1 invariant prefixOf(s, old(s)) && forall(k, len(s), old(len(s)), old(s[k]) == ' ' || old(s[k]) == '\t')
+//@   loop 1 decreases len(s)
+
+//@ func countInitialOccurrences
+//@   prop C12
+//@   pure
+//@   ensures 0 <= result && result <= len(s) && forall(k, 0, result, s[k] == x) && implies(result < len(s), s[result] != x)
+//@   loop 1 invariant -1 <= rangeindex && rangeindex <= len(s) && forall(k, 0, rangeindex + 1, s[k] == x)
+//@   loop 1 decreases len(s) - rangeindex
+
+//@ func lastNonWhiteSpace
+//@   prop C12
+//@   pure
+//@   loop 1 invariant -1 <= i && i < len(s)
+//@   loop 1 decreases i + 1
+
+// skipCooked: nil, or a strict suffix of s (the progress fact of the scanner).
+//@ func skipCooked
+//@   prop C12
+//@   pure
+//@   ensures isnil(base(suffix)) && len(suffix) == 0 || (suffixOf(suffix, s) && len(suffix) < len(s))
+//@   loop 1 invariant 0 <= i && i <= len(s)
+//@   loop 1 decreases len(s) - i
+
+//@ func appendRepeatedBytes
+//@   prop C12
+//@   requires number <= 0 || len(repeatedBytes) > 0
+//@   ensures len(result) >= len(dst) && (base(result) == base(dst) || fresh(base(result)))
+//@   modifies mem(dst)
+//@   loop 1 invariant len(dst) >= old(len(dst)) && (base(dst) == old(base(dst)) || fresh(base(dst))) && number <= old(number)
+//@   loop 1 decreases number
+
+//@ func hasPrefixAndBrace
+//@   prop C12
+//@   pure
+
+// handleRaw: copies restOfSrc[:end] to dst; line and remaining are the next
+// line and what follows its new-line, both windows of newSrc = restOfSrc[end:].
+//@ func handleRaw
+//@   prop C12
+//@   ensures len(retDst) >= len(dst) && (base(retDst) == base(dst) || fresh(base(retDst)))
+//@   ensures[newsrc] suffixOf(newSrc, restOfSrc) && prefixOf(line, newSrc)
+//@   ensures[remaining] (isnil(base(remaining)) && len(remaining) == 0 && len(line) == len(newSrc)) || (suffixOf(remaining, newSrc) && off(remaining) == off(line) + len(line) + 1)
+//@   modifies mem(dst)
+
+// Package-level byte slices set by the package initialiser and never reassigned.
+//@ axiom pkginit: len(spaces) == 32 && len(tabs) == 16 && len(newLines) == 16 && len(starSlash) == 2 && len(backTick) == 1 && len(extern) == 7 && len(namespace) == 10
+
+// FormatBytes: memory safety and termination. Loop 1 is the per-line loop, loop 3
+// the `loop:` re-scan loop, loop 4 the scan of one line.
+//   - `line` always ends where the current line of `src` ends (so the offset
+//     lineLength-len(restOfLine) is the position of restOfLine in src);
+//   - every `continue loop` makes progress: either src gets shorter, or src is
+//     unchanged and line gets shorter;
+//   - `remaining` is shorter than src was at the top of the iteration.
+//@ spec lineInSrc(line []byte, src []byte, lineLength int) bool = (isnil(base(line)) && len(line) == 0) || (base(line) == base(src) && off(line) >= off(src) && off(line) + len(line) == off(src) + lineLength && lineLength <= len(src) && 0 <= lineLength)
+
+//@ func FormatBytes
+//@   prop C12
+//@   wraps add sub mul
+//@   modifies mem(dst)
+//@   loop 1 invariant len(dst) >= 0 && (base(dst) == old(base(dst)) || fresh(base(dst)) || isnil(base(dst))) && initialIndent >= 0 && indentCount >= 1 && len(indentBytes) > 0 && (sameslice(indentBytes, spaces) || sameslice(indentBytes, tabs))
+//@   loop 1 decreases len(src)
+//@   loop 2 invariant 0 <= closeBraces && closeBraces <= len(line) && len(line) > 0
+//@   loop 2 decreases len(line) - closeBraces
+//@   loop 3 invariant lineInSrc(line, src, lineLength) && len(src) <= athead(1, len(src)) && len(remaining) < athead(1, len(src))
+//@   loop 3 invariant (base(dst) == old(base(dst)) || fresh(base(dst)) || isnil(base(dst)))
+//@   loop 3 decreases len(src), len(line)
+//@   loop 4 invariant lineInSrc(line, src, lineLength) && -1 <= rangeindex && rangeindex <= len(line) && len(src) <= athead(1, len(src)) && len(remaining) < athead(1, len(src))
+//@   loop 4 invariant (base(dst) == old(base(dst)) || fresh(base(dst)) || isnil(base(dst)))
+//@   loop 4 decreases len(line) - rangeindex
